@@ -163,6 +163,10 @@ class NamespaceFunction(Namespace[symtable.Function]):
                 # free/nonlocal inevitablely exist in outer function namespace
                 # so check is not need here.
                 outer_symbol = outer.symt.lookup(nonlocal_free)
+                if outer_symbol.is_free():
+                    # the name is nonlocal/free in the outer function as well,
+                    # it was born in a function which is further out
+                    continue
                 if (
                     outer_symbol.is_assigned()
                     or outer_symbol.is_imported()
@@ -222,12 +226,13 @@ class NamespaceFunction(Namespace[symtable.Function]):
 
     def _is_shadowed_global(self, name: str) -> bool:
         """
-        Whether `name` is declared global in this function
+        Whether `name` is global in this function
         while an outer function has a local variable with the same name.
         (A plain name would load the local variable of the outer function)
         """
         try:
-            if not self.symt.lookup(name).is_declared_global():
+            # (the name is global implicitly if it is declared global in an outer function)
+            if not self.symt.lookup(name).is_global():
                 return False
         except KeyError:
             return False
@@ -291,6 +296,10 @@ class NamespaceClass(Namespace[symtable.Class]):
                 # free/nonlocal inevitablely exist in outer function namespace
                 # so check is not need here.
                 outer_symbol = outer.symt.lookup(nonlocal_free)
+                if outer_symbol.is_free():
+                    # the name is nonlocal/free in the outer function as well,
+                    # it was born in a function which is further out
+                    continue
                 if (
                     outer_symbol.is_assigned()
                     or outer_symbol.is_imported()
